@@ -394,3 +394,167 @@ def rule_load_appends(prog, rep, fname='qlisttbl_load', rid='L9'):
         rep.violation(rid, g, line, 'inserttop-read:%s' % g.name,
                       'the insert-at-top option is consulted on the load path (%s): save writes the entries first -> last, so a table '
                       'created with INSERTTOP comes back in reverse order' % ' <- '.join(path))
+
+
+def rule_link(prog, rep, unit, rid='DL2'):
+    """Link-in protocol of the doubly linked chain (the mirror of DL1).  In the function that links a new node O and counts it,
+    on every feasible path to the count increment and for each side of O:
+      - where O's link on that side is NULL (known by assignment or test) the container's end pointer on that side is O;
+      - otherwise the neighbour's opposite link was set to O (`S->prev = O` for S = O->next, `P->next = O` for P = O->prev).
+    Values are tracked as (expression, version): a later store to `tgt->prev` does not change which node an earlier
+    `obj->prev = tgt->prev` referred to.  List invariant used for pruning: first == NULL  <=>  last == NULL."""
+    rep.rule(rid, 'link-in protocol of the doubly linked chain: at the count increment each side of the new node is closed - end '
+                  'pointer set to it where it has no neighbour, the neighbour\'s opposite link set to it where it has one')
+    prog.unit(unit)
+    found = 0
+    for f in sorted(prog.funcs_in(unit), key=lambda x: x.line or 0):
+        if f.body is None:
+            continue
+        inc_nodes = [n for n in f.cfg.nodes for ev in node_events(n) if ev[0] == 'update' and _field(ev[1])[0] == 'num'
+                     and ev[2].get('kind') == 'UnaryOperator' and ev[2].get('opcode') == '++']
+        if not inc_nodes:
+            continue
+        # O: the node variable stored into an end pointer
+        onames = set()
+        for x in walk(f.body):
+            if x.get('kind') == 'BinaryOperator' and x.get('opcode') == '=':
+                fld, _b = _field(children(x)[0])
+                r = strip(children(x)[1])
+                if fld in ('first', 'last') and r.get('kind') == 'DeclRefExpr':
+                    onames.add((r.get('referencedDecl') or {}).get('name'))
+        if len(onames) != 1:
+            continue
+        O = next(iter(onames))
+        found += 1
+        names = {x.get('id'): x.get('name') for x in walk(f.decl) if x.get('kind') in ('VarDecl', 'ParmVarDecl')}
+        # locals that alias an expression (single definition)
+        ldefs = {}
+        for n in f.cfg.nodes:
+            for (vid, rhs, kind, _l) in node_defs(n):
+                nm = names.get(vid)
+                if nm and nm != O:
+                    ldefs.setdefault(nm, []).append(rhs)
+        alias = {nm: canon(strip(rs[0])) for nm, rs in ldefs.items() if len(rs) == 1 and rs[0] is not None
+                 and strip(rs[0]).get('kind') == 'MemberExpr'}
+        cont = None
+        for x in walk(f.body):
+            fld, b = _field(x) if x.get('kind') == 'MemberExpr' else (None, None)
+            if fld in ('first', 'last') and b is not None:
+                cont = canon(b)
+        SIDE_END = {'next': 'last', 'prev': 'first'}
+
+        def ver(st, e):
+            for x in st:
+                if x[0] == 'ver' and x[1] == e:
+                    return x[2]
+            return 0
+
+        def resolve(st, e):
+            """canonical (expr, version) a pointer expression denotes now: O->side resolves to its recorded value"""
+            e = alias.get(e, e)
+            for side in ('next', 'prev'):
+                if e == '%s->%s' % (O, side):
+                    for x in st:
+                        if x[0] == 'val' and x[1] == side:
+                            return x[2], x[3]
+            return e, ver(st, e)
+
+        def bump(s, e):
+            v = ver(s, e)
+            s2 = {x for x in s if not (x[0] == 'ver' and x[1] == e)}
+            s2.add(('ver', e, v + 1))
+            return s2
+
+        def learn_null(s, e, v, isnull):
+            tag = 'null' if isnull else 'nn'
+            other = 'nn' if isnull else 'null'
+            if (other, e, v) in s:
+                return None
+            s.add((tag, e, v))
+            # list invariant: first == NULL <=> last == NULL (as long as neither was re-assigned since)
+            if cont:
+                pair = {cont + '->first': cont + '->last', cont + '->last': cont + '->first'}
+                if e in pair and v == ver(s, e):
+                    o = pair[e]
+                    ov = ver(s, o)
+                    if (other, o, ov) in s:
+                        return None
+                    s.add((tag, o, ov))
+            return s
+
+        def branch(n, st, lab):
+            if not isinstance(n.ast, dict):
+                return st
+            t = cond_null_test(n.ast)
+            if not t:
+                return st
+            e, v = resolve(st, t[0])
+            if e == 'NULL':
+                return st if ((lab == 'T') == t[1]) else None
+            s = learn_null(set(st), e, v, (lab == 'T') == t[1])
+            return frozenset(s) if s is not None else None
+
+        def transfer(n, st):
+            if not isinstance(n.ast, dict) or n.kind == 'macro':
+                return st
+            s = set(st)
+            for ev in node_events(n):
+                if ev[0] != 'assign':
+                    continue
+                lhs, rhs = ev[1], ev[2]
+                fld, base = _field(lhs)
+                r = strip(rhs)
+                rname = (r.get('referencedDecl') or {}).get('name') if r.get('kind') == 'DeclRefExpr' else None
+                if fld in ('first', 'last') and base is not None:
+                    e = canon(strip_parens(lhs))
+                    s = bump(s, e)
+                    s = {x for x in s if not (x[0] == 'end' and x[1] == fld)}
+                    if rname == O:
+                        s.add(('end', fld))
+                        s.add(('nn', e, ver(s, e)))
+                elif fld in OPP and base is not None:
+                    bpath = canon(base)
+                    if bpath == O:
+                        # O->side = value
+                        s = {x for x in s if not (x[0] == 'val' and x[1] == fld)}
+                        if is_null(rhs):
+                            s.add(('val', fld, 'NULL', 0))
+                        else:
+                            e, v = resolve(s, canon(r))
+                            s.add(('val', fld, e, v))
+                    else:
+                        be, bv = resolve(s, bpath)
+                        full = canon(strip_parens(lhs))
+                        s = bump(s, alias.get(full, full))
+                        if rname == O:
+                            s.add(('lnk', fld, be, bv))
+            return frozenset(s)
+
+        init = set()
+        states, truncated = propagate(f, frozenset(init), transfer, branch)
+        if truncated:
+            raise AnalysisBroken('%s: state space truncated in the link-in analysis' % f.name)
+        for dn in inc_nodes:
+            rep.instance(rid)
+            problems = []
+            for st in states.get(dn.id, ()):
+                for side in ('next', 'prev'):
+                    E, opp = SIDE_END[side], OPP[side]
+                    val = [x for x in st if x[0] == 'val' and x[1] == side]
+                    if val:
+                        e, v = val[0][2], val[0][3]
+                    else:
+                        e, v = '%s->%s' % (O, side), 0       # set by the caller: the expression stands for itself
+                    isnull = e == 'NULL' or ('null', e, v) in st
+                    if isnull:
+                        if ('end', E) not in st:
+                            problems.append('on a path on which %s->%s is NULL the container\'s `%s` is not set to %s' % (O, side, E, O))
+                    else:
+                        if ('lnk', opp, e, v) not in st:
+                            problems.append('on a path on which %s->%s is %s that node\'s `%s` link is not set to %s' % (O, side, e, opp, O))
+            problems = sorted(set(problems))
+            rep.oblige(rid, not problems, {'function': f.name, 'line': dn.line, 'new_node': O, 'paths': len(states.get(dn.id, ()))})
+            for p_ in problems:
+                rep.violation(rid, f, dn.line, 'link:%s' % p_.split('`')[1], p_)
+    if found == 0:
+        raise AnalysisBroken('%s: no function that links a new node and counts it was found' % unit)
